@@ -400,4 +400,437 @@ theorem c10_bad_peer_harmless (cfg : Cfg) (hm : cfg.mode = .participant) (self :
   obtain ⟨⟨⟨hci, _, ws, _, _, hh, hl⟩, _⟩, hval⟩ := this
   exact ⟨hci, hval, by omega, hl⟩
 
+/-! ### the idealised signature scheme and the true chain -/
+
+/-- `IdealSig` + `SigUnique` + collision freedom of DESIGN §2.6 as one explicit hypothesis: `chain` is the chain the
+group really signed; a beacon verifies only if it carries the signature of its round (and, chained, the previous
+signature that was signed with it); distinct rounds have distinct signatures. `chain 0` is the genesis beacon. -/
+structure Ideal (verify : Beacon → Bool) (chained : Bool) (chain : Nat → Beacon) : Prop where
+  round : ∀ r, (chain r).round = r
+  link : chained = true → ∀ r, (chain (r + 1)).prev = (chain r).sig
+  sound : ∀ b, verify b = true →
+    1 ≤ b.round ∧ b.sig = (chain b.round).sig ∧ (chained = true → b.prev = (chain b.round).prev)
+  complete : ∀ r, 1 ≤ r → verify (chain r) = true
+  inj : ∀ r r', (chain r).sig = (chain r').sig → r = r'
+
+/-- the node holds a prefix of the true chain -/
+def OnChain (chain : Nat → Beacon) (n : Node) : Prop :=
+  ∀ r, r ≤ n.head → lookup r n.st.base = some (storedForm n.st.chained (chain r))
+
+private theorem beacon_ext' {b b' : Beacon} (h1 : b.round = b'.round) (h2 : b.sig = b'.sig) (h3 : b.prev = b'.prev) :
+    b = b' := by
+  cases b; cases b'; simp_all
+
+theorem storedForm_ideal {verify : Beacon → Bool} {chained : Bool} {chain : Nat → Beacon}
+    (hI : Ideal verify chained chain) {b : Beacon} (hb : verify b = true) :
+    storedForm chained b = storedForm chained (chain b.round) := by
+  obtain ⟨_, hs, hp⟩ := hI.sound b hb
+  unfold storedForm
+  cases chained with
+  | true => simpa using beacon_ext' (hI.round _).symm hs (hp rfl)
+  | false => simp [hs, hI.round]
+
+theorem onChain_step {verify : Beacon → Bool} {chain : Nat → Beacon} {n n' : Node} {b : Beacon}
+    (hI : Ideal verify n.st.chained chain) (hc : ChainInv n.st) (ho : OnChain chain n) (hb : verify b = true)
+    (ha : Appended n n' b) : OnChain chain n' := by
+  have f := appended_facts hc ha
+  intro r hr
+  rw [f.look r, f.chained]
+  split
+  · next h => rw [h]; exact congrArg some (storedForm_ideal hI hb)
+  · next h => exact ho r (by have := f.head; have := f.round; omega)
+
+section helpers
+variable {α : Type}
+private theorem sorted_tail' {a : Nat × α} {t : List (Nat × α)} (h : Sorted (a :: t)) : Sorted t := by
+  obtain ⟨k, v⟩ := a
+  cases t with
+  | nil => trivial
+  | cons b t => obtain ⟨k', v'⟩ := b; exact h.2
+
+private theorem sorted_head_lt' {k : Nat} {v : α} {t : List (Nat × α)} (h : Sorted ((k, v) :: t)) :
+    ∀ p ∈ t, k < p.1 := by
+  induction t generalizing k v with
+  | nil => intro p hp; cases hp
+  | cons b t ih =>
+    obtain ⟨k', v'⟩ := b
+    intro p hp
+    have h1 : k < k' := h.1
+    have h2 := ih h.2
+    rcases List.mem_cons.1 hp with rfl | hp
+    · exact h1
+    · exact Nat.lt_trans h1 (h2 p hp)
+
+private theorem mem_lookup' {k : Nat} {v : α} {l : List (Nat × α)} (hs : Sorted l) (h : (k, v) ∈ l) :
+    lookup k l = some v := by
+  induction l with
+  | nil => cases h
+  | cons a t ih =>
+    obtain ⟨k', v'⟩ := a
+    unfold lookup
+    rcases List.mem_cons.1 h with h | h
+    · cases h; simp
+    · have := sorted_head_lt' hs _ h
+      simp at this
+      rw [if_neg (by omega)]
+      exact ih (sorted_tail' hs) h
+end helpers
+
+/-- the head of a well-formed store is stored under its own round -/
+theorem lookup_head {s : Stack} (h : ChainInv s) : lookup (Stack.last s.base).round s.base = some (Stack.last s.base) := by
+  cases hl : s.base.getLast? with
+  | none => exact absurd (List.getLast?_eq_none_iff.1 hl) h.nonempty
+  | some kv =>
+    obtain ⟨k, v⟩ := kv
+    have hm : (k, v) ∈ s.base := List.mem_of_getLast? hl
+    have hk : v.round = k := h.sorted.2 _ hm
+    have hlast : Stack.last s.base = v := by unfold Stack.last; rw [hl]
+    rw [hlast, hk]
+    exact mem_lookup' h.sorted.1 hm
+
+/-- chained follow stack, as is: `schemeStore.Put` accepts a verifying beacon only if it is the next round -/
+theorem follow_chained_next {verify : Beacon → Bool} {chain : Nat → Beacon} {n : Node} {b : Beacon}
+    (hch : n.st.chained = true) (hI : Ideal verify true chain) (hc : ChainInv n.st) (ho : OnChain chain n)
+    (hb : verify b = true) (hok : (n.st.schemePut b).2 = .ok) : b.round = n.head + 1 := by
+  have hprev : n.st.schemeLast.sig = b.prev := by
+    unfold Stack.schemePut at hok
+    rw [hch] at hok
+    simp only [if_true] at hok
+    by_cases h : n.st.schemeLast.sig ≠ b.prev
+    · simp [h] at hok
+    · exact Decidable.not_not.1 h
+  have hlast : Stack.last n.st.base = storedForm true (chain n.head) := by
+    have h1 := lookup_head hc
+    have h2 := ho n.head (Nat.le_refl _)
+    rw [hch] at h2
+    unfold Node.head at h2 ⊢
+    rw [h1] at h2
+    exact Option.some.inj h2
+  rw [hc.head.2, hlast] at hprev
+  obtain ⟨h1, _, hp⟩ := hI.sound b hb
+  obtain ⟨k, hk⟩ : ∃ k, b.round = k + 1 := ⟨b.round - 1, by omega⟩
+  have := hp rfl
+  rw [hk, hI.link rfl k] at this
+  have hkk := hI.inj n.head k (by simpa [storedForm] using hprev.trans this)
+  omega
+
+/-- every configuration in which an accepted packet is necessarily the next round: the participant stack, tryNode with
+the round check, or the follow stack on a chained scheme under `Ideal` -/
+theorem chain_inv (cfg : Cfg) (chain : Nat → Beacon) (n0 : Node) (hI : Ideal cfg.verify n0.st.chained chain)
+    (hgood : cfg.mode = .participant ∨ cfg.roundCheck = true ∨ n0.st.chained = true) (f upTo : Nat) :
+    Inv cfg false f upTo (fun last n => (InOrder n0 n ∧ last = n.head) ∧ OnChain chain n) := by
+  refine ⟨?_, fun _ _ _ h => h, fun _ _ h => ⟨⟨h.1.1, rfl⟩, h.2⟩⟩
+  intro last n b ⟨⟨hio, hl⟩, ho⟩ hver hro hok
+  have hI' : Ideal cfg.verify n.st.chained chain := by rw [hio.2.1]; exact hI
+  have ha : Appended n (store1 cfg false n b).1 b := by
+    cases hm : cfg.mode with
+    | participant => exact store1_participant hm n b hok
+    | follow =>
+      rcases hgood with hp | hrc | hch
+      · rw [hm] at hp; cases hp
+      · exact store1_follow hm n b hio.1 (by rw [← hl]; exact roundOk_follow hrc hro) hok
+      · have hch' : n.st.chained = true := by rw [hio.2.1]; exact hch
+        refine store1_follow hm n b hio.1 ?_ hok
+        refine follow_chained_next hch' (by rw [← hch']; exact hI') hio.1 ho hver ?_
+        unfold store1 at hok
+        simp only [Bool.false_eq_true, if_false, hm] at hok
+        by_cases h : (n.st.schemePut b).2 = .ok
+        · exact h
+        · simp [h] at hok
+  exact ⟨⟨inOrder_step hio ha, (appended_facts hio.1 ha).head.symm⟩, onChain_step hI' hio.1 ho hver ha⟩
+
+/-
+Full statement wanted for follow mode (as-is code, `roundCheck = false`):
+  ∀ cfg, cfg.mode = .follow → ChainInv n.st → InOrder n (sync cfg self 0 upTo dead n ps).1
+It does not hold: nothing in the follow stack or in tryNode compares the round of a streamed beacon with the head, and
+on an unchained scheme a verifying beacon of any round passes `schemeStore.Put` (`c10_follow_order_counterexample`).
+What the proof forces is the chained scheme (whose previous-signature check pins the round) under `Ideal`.
+-/
+/-- **c10_follow_order_partial** (as-is code): follow stack on a *chained* scheme, under `Ideal`, starting from a prefix
+of the true chain: sync writes are head+1 each and the store stays a prefix of the true chain. -/
+theorem c10_follow_order_partial (cfg : Cfg) (chain : Nat → Beacon) (self : String) (upTo : Nat) (n : Node)
+    (hch : n.st.chained = true) (hI : Ideal cfg.verify n.st.chained chain) (h : ChainInv n.st) (ho : OnChain chain n) :
+    (∀ dead ps, InOrder n (sync cfg self 0 upTo dead n ps).1 ∧ OnChain chain (sync cfg self 0 upTo dead n ps).1) ∧
+    (∀ atts, InOrder n (followLoop cfg self upTo n atts).1 ∧ OnChain chain (followLoop cfg self upTo n atts).1) := by
+  have hinv := fun f => chain_inv cfg chain n hI (Or.inr (Or.inr hch)) f upTo
+  constructor
+  · intro dead ps
+    have := sync_ind (cfg := cfg) (self := self) (from_ := 0) (upTo := upTo)
+      (P := fun last m => (InOrder n m ∧ last = m.head) ∧ OnChain chain m)
+      (fun f _ => by simpa using hinv f) ps dead n ⟨⟨inOrder_refl n h, rfl⟩, ho⟩
+    exact ⟨this.1.1, this.2⟩
+  · intro atts
+    have := followLoop_ind (cfg := cfg) (self := self) (upTo := upTo)
+      (P := fun last m => (InOrder n m ∧ last = m.head) ∧ OnChain chain m) hinv atts n ⟨⟨inOrder_refl n h, rfl⟩, ho⟩
+    exact ⟨this.1.1, this.2⟩
+
+/-
+Witness for the as-is follow stack on an unchained scheme (DESIGN §5 row 6), replayed on the real code by the check
+(corpus/C10/follow_unchained_gap.json): the oracle accepts exactly the true signatures `[1, round]`; the node holds the
+genesis beacon only; one peer answers the request for round 1 with the true beacon of round 6.
+-/
+def cxVerify (b : Beacon) : Bool := b.sig == [1, UInt8.ofNat b.round]
+def cxCfg (mode : Mode) : Cfg :=
+  { verify := cxVerify, lastErr := fun _ => false, mode := mode, roundCheck := false, rangeCheck := false, followRetry := false }
+def cxNode (chained : Bool) : Node := ⟨Stack.init chained [0, 0], [], []⟩
+def cxSkip : Peer := ⟨"liar", fun from_ => .stream [.pkt ⟨from_ + 5, [1, UInt8.ofNat (from_ + 5)], []⟩ true]⟩
+
+/-- **c10_follow_order_counterexample** (as-is code, follow stack, unchained scheme): the follower stores round 6 right
+after round 0 — a gap — although every stored beacon verifies. -/
+theorem c10_follow_order_counterexample :
+    ChainInv (cxNode false).st ∧
+    (sync (cxCfg .follow) "self" 0 9 false (cxNode false) [cxSkip]).1.st.base.map (·.1) = [0, 6] ∧
+    (∀ w ∈ (sync (cxCfg .follow) "self" 0 9 false (cxNode false) [cxSkip]).1.writes, cxVerify w.pkt = true) ∧
+    ¬ InOrder (cxNode false) (sync (cxCfg .follow) "self" 0 9 false (cxNode false) [cxSkip]).1 := by
+  refine ⟨c02_init_inv false [0, 0], by decide, by decide, ?_⟩
+  intro ⟨_, _, ws, hw, hr, _, _⟩
+  have h1 : (sync (cxCfg .follow) "self" 0 9 false (cxNode false) [cxSkip]).1.writes.map (·.stored.round) = [6] := by decide
+  have h2 : (cxNode false).writes = [] := rfl
+  rw [hw, h2, List.append_nil] at h1
+  have hlen : ws.length = 1 := by simpa using congrArg List.length h1
+  have h3 : (ws.reverse.map (·.stored.round)).reverse = [6] := by rw [← List.map_reverse, List.reverse_reverse]; exact h1
+  rw [hr, hlen] at h3
+  revert h3; decide
+
+/-! ### convergence -/
+
+def honestItems (chain : Nat → Beacon) (from_ H : Nat) : List Item :=
+  (List.range' from_ (H + 1 - from_)).map fun r => Item.pkt (chain r) true
+
+/-- an honest peer whose head is `H`: asked from any round it has, it streams the true chain from there up to its head
+(whatever follows — later beacons, a stall, a close — is arbitrary) -/
+def Honest (chain : Nat → Beacon) (H : Nat) (p : Peer) : Prop :=
+  ∀ from_, from_ ≤ H → ∃ rest, p.serve from_ = .stream (honestItems chain from_ H ++ rest)
+
+/-- a peer that never leaves the stream open without sending: it may lie, fail and close at will -/
+def NoStall (p : Peer) : Prop := ∀ f items, p.serve f = .stream items → Item.stall ∉ items
+
+/-- the invariant of `chain_inv`, forgetting tryNode's local variable -/
+def Good (chain : Nat → Beacon) (n0 n : Node) : Prop := InOrder n0 n ∧ OnChain chain n
+
+theorem store1_already {cfg : Cfg} {n : Node} {b : Beacon} (hc : ChainInv n.st)
+    (h : (store1 cfg false n b).2 = .already) : b.round = n.head := by
+  unfold store1 at h
+  simp only [Bool.false_eq_true, if_false] at h
+  cases hm : cfg.mode with
+  | participant =>
+    simp only [hm] at h
+    by_cases hok : (n.st.put b).2 = .ok
+    · simp [hok] at h
+    · simp only [hok, if_false] at h
+      unfold Stack.put at h
+      by_cases hr : b.round = n.st.appendLast.round
+      · unfold Node.head; rw [← hc.head.1]; exact hr
+      · rw [if_neg hr] at h
+        split at h
+        · cases h
+        · unfold Stack.schemePut at h
+          split at h
+          · split at h <;> cases h
+          · cases h
+  | follow =>
+    simp only [hm] at h
+    by_cases hok : (n.st.schemePut b).2 = .ok
+    · simp [hok] at h
+    · simp only [hok, if_false] at h
+      unfold Stack.schemePut at h
+      split at h
+      · split at h <;> cases h
+      · cases h
+
+/-- the next beacon of the true chain is accepted by the stack of a node that holds a prefix of that chain -/
+theorem store1_next_ok {cfg : Cfg} {chain : Nat → Beacon} {n : Node} (hI : Ideal cfg.verify n.st.chained chain)
+    (hc : ChainInv n.st) (ho : OnChain chain n) : (store1 cfg false n (chain (n.head + 1))).2 = .ok := by
+  have hlast : Stack.last n.st.base = storedForm n.st.chained (chain n.head) := by
+    have h1 := lookup_head hc
+    have h2 := ho n.head (Nat.le_refl _)
+    unfold Node.head at h2 ⊢
+    rw [h1] at h2
+    exact Option.some.inj h2
+  have hsp : (n.st.schemePut (chain (n.head + 1))).2 = .ok := by
+    unfold Stack.schemePut
+    cases hch : n.st.chained with
+    | true =>
+      have : n.st.schemeLast.sig = (chain (n.head + 1)).prev := by
+        rw [hc.head.2, hlast, hI.link hch]; simp [storedForm, hch]
+      simp [this]
+    | false => simp
+  have hr : (chain (n.head + 1)).round = (Stack.last n.st.base).round + 1 := by rw [hI.round]; rfl
+  unfold store1
+  simp only [Bool.false_eq_true, if_false]
+  cases hm : cfg.mode with
+  | participant => simp only; rw [put_eq_schemePut n.st _ hc hr]; simp [hsp]
+  | follow => simp [hsp]
+
+theorem honestItems_cons (chain : Nat → Beacon) {from_ H : Nat} (h : from_ ≤ H) :
+    honestItems chain from_ H = .pkt (chain from_) true :: honestItems chain (from_ + 1) H := by
+  unfold honestItems
+  have : H + 1 - from_ = (H + 1 - (from_ + 1)) + 1 := by omega
+  rw [this, List.range'_succ]
+  rfl
+
+section conv
+variable {cfg : Cfg} {chain : Nat → Beacon} {n0 : Node} {upTo : Nat}
+
+/-- one attempt with one peer, any behaviour: either the target is reached exactly, or the node is still below it;
+the node stays a prefix of the true chain; only a stall can end the attempt by cancellation -/
+theorem loop_any (hI : Ideal cfg.verify n0.st.chained chain)
+    (hgood : cfg.mode = .participant ∨ cfg.roundCheck = true ∨ n0.st.chained = true) (f : Nat) :
+    ∀ (items : List Item) (n : Node), Good chain n0 n → n.head < upTo →
+      let r := loop cfg false f upTo n.head n items
+      Good chain n0 r.1 ∧ (r.2 = .reached → r.1.head = upTo) ∧ (r.2 ≠ .reached → r.1.head < upTo) ∧
+        (Item.stall ∉ items → r.2 ≠ .cancelled) := by
+  intro items
+  induction items with
+  | nil => intro n hg hlt; exact ⟨hg, by simp [loop], fun _ => hlt, by simp [loop]⟩
+  | cons it rest ih =>
+    intro n hg hlt
+    cases it with
+    | close => exact ⟨hg, by simp [loop], fun _ => hlt, by simp [loop]⟩
+    | stall => exact ⟨hg, by simp [loop], fun _ => hlt, by simp [loop]⟩
+    | pkt b idOk =>
+      have stay : ∀ res : TryRes, res ≠ .reached → res ≠ .cancelled →
+          Good chain n0 (n, res).1 ∧ ((n, res).2 = .reached → (n, res).1.head = upTo) ∧
+            ((n, res).2 ≠ .reached → (n, res).1.head < upTo) ∧ (Item.stall ∉ Item.pkt b idOk :: rest → (n, res).2 ≠ .cancelled) :=
+        fun res h1 h2 => ⟨hg, fun h => absurd h h1, fun _ => hlt, fun _ => h2⟩
+      unfold loop
+      simp only
+      split
+      · exact stay _ (by simp) (by simp)
+      · split
+        · exact stay _ (by simp) (by simp)
+        · split
+          · exact stay _ (by simp) (by simp)
+          · next h1 h2 h3 =>
+            split
+            · next hok =>
+              have hstep := (chain_inv cfg chain n0 hI hgood f upTo).step n.head n b ⟨⟨hg.1, rfl⟩, hg.2⟩
+                (by simpa using h2) (by simpa using h3) hok
+              obtain ⟨⟨hio, hl⟩, hoc⟩ := hstep
+              split
+              · next heq => exact ⟨⟨hio, hoc⟩, fun _ => by rw [← hl]; exact heq, fun h => absurd rfl h, by simp⟩
+              · next hne =>
+                have hb : b.round = n.head + 1 := by
+                  have ha : Appended n (store1 cfg false n b).1 b ∨ True := Or.inr trivial
+                  obtain ⟨_, _, ws, hw, _, hh, _⟩ := hio
+                  obtain ⟨_, _, ws0, hw0, _, hh0, _⟩ := hg.1
+                  obtain ⟨st, hst, _, _⟩ := (store1_spec cfg false n b).1 hok
+                  have : (store1 cfg false n b).1.writes = ⟨b, storedForm n.st.chained b⟩ :: n.writes := by rw [hst]; simp
+                  rw [hw, hw0] at this
+                  have hlen := congrArg List.length this
+                  simp at hlen
+                  omega
+                have hlt' : (store1 cfg false n b).1.head < upTo := by omega
+                have := ih (store1 cfg false n b).1 ⟨hio, hoc⟩ hlt'
+                rw [← hl] at this
+                obtain ⟨g, r1, r2, r3⟩ := this
+                exact ⟨g, r1, r2, fun hs => r3 (fun hm => hs (List.mem_cons_of_mem _ hm))⟩
+            · next hnok =>
+              split
+              · next halr =>
+                have := store1_already hg.1.1 halr
+                have hne : b.round ≠ upTo := by omega
+                simp only [hne, if_false]
+                exact stay _ (by simp) (by simp)
+              · exact stay _ (by simp) (by simp)
+
+theorem tryNode_any (hI : Ideal cfg.verify n0.st.chained chain)
+    (hgood : cfg.mode = .participant ∨ cfg.roundCheck = true ∨ n0.st.chained = true)
+    (n : Node) (p : Peer) (hg : Good chain n0 n) (hlt : n.head < upTo) :
+    let r := tryNode cfg 0 upTo n p
+    Good chain n0 r.1 ∧ (r.2 = .reached → r.1.head = upTo) ∧ (r.2 ≠ .reached → r.1.head < upTo) ∧
+      (NoStall p → r.2 ≠ .cancelled) := by
+  have stay : ∀ (m : Node), m.st = n.st → m.writes = n.writes →
+      Good chain n0 m ∧ ((TryRes.failed) = .reached → m.head = upTo) ∧ (TryRes.failed ≠ .reached → m.head < upTo) ∧
+        (NoStall p → TryRes.failed ≠ .cancelled) := by
+    intro m h1 h2
+    have hh : m.head = n.head := by unfold Node.head; rw [h1]
+    refine ⟨?_, by simp, fun _ => by rw [hh]; exact hlt, by simp⟩
+    obtain ⟨⟨a, b, ws, c, d, e, g⟩, ho⟩ := hg
+    refine ⟨⟨by rw [h1]; exact a, by rw [h1]; exact b, ws, by rw [h2]; exact c, d, by rw [hh]; exact e, by rw [h1]; exact g⟩, ?_⟩
+    intro r hr; rw [h1]; exact ho r (by rw [← hh]; exact hr)
+  unfold tryNode
+  simp only
+  split
+  · exact stay n rfl rfl
+  · split
+    · exact stay n rfl rfl
+    · split
+      · exact stay _ rfl rfl
+      · next items hs =>
+        have hg1 : Good chain n0 { n with calls := (p.addr, if (0 : Nat) = 0 then n.head + 1 else 0) :: n.calls } := hg
+        have := loop_any (upTo := upTo) hI hgood (if (0 : Nat) = 0 then n.head + 1 else 0) items _ hg1 hlt
+        obtain ⟨g, r1, r2, r3⟩ := this
+        exact ⟨g, r1, r2, fun hns => r3 (hns _ _ hs)⟩
+
+/-- any `Sync` attempt, any peers, any order, cancelled or not: the node stays a prefix of the true chain, it reports
+success exactly when the head is the target, otherwise the head is still below the target -/
+theorem sync_any (hI : Ideal cfg.verify n0.st.chained chain)
+    (hgood : cfg.mode = .participant ∨ cfg.roundCheck = true ∨ n0.st.chained = true) (self : String) :
+    ∀ (ps : List Peer) (dead : Bool) (n : Node), Good chain n0 n → n.head < upTo →
+      let r := sync cfg self 0 upTo dead n ps
+      Good chain n0 r.1 ∧ (r.2.1 = .ok → r.1.head = upTo) ∧ (r.2.1 ≠ .ok → r.1.head < upTo) := by
+  intro ps
+  induction ps with
+  | nil => intro dead n hg hlt; exact ⟨hg, by simp [sync], fun _ => hlt⟩
+  | cons p ps ih =>
+    intro dead n hg hlt
+    unfold sync
+    split
+    · exact ih _ _ hg hlt
+    · split
+      · exact ⟨hg, by simp, fun _ => hlt⟩
+      · obtain ⟨g, r1, r2, _⟩ := tryNode_any (upTo := upTo) hI hgood n p hg hlt
+        simp only
+        split
+        · next h => exact ⟨g, fun _ => r1 h, fun h' => absurd rfl h'⟩
+        · next h => exact ih _ _ g (r2 (by rw [h]; simp))
+        · next h => exact ih _ _ g (r2 (by rw [h]; simp))
+
+/-- the honest peer's stream takes the node to the target -/
+theorem loop_honest (hI : Ideal cfg.verify n0.st.chained chain)
+    (hgood : cfg.mode = .participant ∨ cfg.roundCheck = true ∨ n0.st.chained = true) (f H : Nat) (hH : upTo ≤ H)
+    (rest : List Item) :
+    ∀ (d : Nat) (n : Node), Good chain n0 n → n.head + d + 1 = upTo →
+      let r := loop cfg false f upTo n.head n (honestItems chain (n.head + 1) H ++ rest)
+      Good chain n0 r.1 ∧ r.2 = .reached ∧ r.1.head = upTo := by
+  intro d
+  induction d with
+  | zero =>
+    intro n hg hd
+    have hI' : Ideal cfg.verify n.st.chained chain := by rw [hg.1.2.1]; exact hI
+    rw [honestItems_cons chain (by omega), List.cons_append]
+    have hv := hI'.complete (n.head + 1) (by omega)
+    have hro : roundOk cfg false f upTo n.head (chain (n.head + 1)) = true := by
+      unfold roundOk; simp [hI'.round]
+    have hok := store1_next_ok (cfg := cfg) hI' hg.1.1 hg.2
+    have hstep := (chain_inv cfg chain n0 hI hgood f upTo).step n.head n _ ⟨⟨hg.1, rfl⟩, hg.2⟩ hv hro hok
+    have hr : (chain (n.head + 1)).round = upTo := by rw [hI'.round]; omega
+    have key : loop cfg false f upTo n.head n (Item.pkt (chain (n.head + 1)) true :: (honestItems chain (n.head + 1 + 1) H ++ rest))
+        = ((store1 cfg false n (chain (n.head + 1))).1, .reached) := by
+      rw [loop]; simp [hv, hro, hok, hr]
+    rw [key]
+    exact ⟨⟨hstep.1.1, hstep.2⟩, rfl, by rw [← hstep.1.2]; exact hr⟩
+  | succ d ih =>
+    intro n hg hd
+    have hI' : Ideal cfg.verify n.st.chained chain := by rw [hg.1.2.1]; exact hI
+    rw [honestItems_cons chain (by omega), List.cons_append]
+    have hv := hI'.complete (n.head + 1) (by omega)
+    have hro : roundOk cfg false f upTo n.head (chain (n.head + 1)) = true := by
+      unfold roundOk; simp [hI'.round]
+    have hok := store1_next_ok (cfg := cfg) hI' hg.1.1 hg.2
+    have hstep := (chain_inv cfg chain n0 hI hgood f upTo).step n.head n _ ⟨⟨hg.1, rfl⟩, hg.2⟩ hv hro hok
+    have hr : (chain (n.head + 1)).round = n.head + 1 := hI'.round _
+    have hne : ¬ (chain (n.head + 1)).round = upTo := by rw [hr]; omega
+    have hh : (store1 cfg false n (chain (n.head + 1))).1.head = n.head + 1 := by rw [← hstep.1.2]; exact hr
+    have key : loop cfg false f upTo n.head n (Item.pkt (chain (n.head + 1)) true :: (honestItems chain (n.head + 1 + 1) H ++ rest))
+        = loop cfg false f upTo (n.head + 1) (store1 cfg false n (chain (n.head + 1))).1 (honestItems chain (n.head + 1 + 1) H ++ rest) := by
+      rw [loop]; simp [hv, hro, hok, hr]; intro h; omega
+    rw [key]
+    have := ih (store1 cfg false n (chain (n.head + 1))).1 ⟨hstep.1.1, hstep.2⟩ (by omega)
+    rw [hh] at this
+    exact this
+
+end conv
+
 end Drand.Beacon.Sync
